@@ -27,6 +27,9 @@ func runC01(c *Ctx) {
 	c01R1(c, discharged)
 	valueAfterError(c, "R3")
 	nilRoot(c, "R4")
+	divisionGuards(c, "R6")
+	indexGuards(c, "R6")
+	payloadUnderTag(c, "R7")
 	cliExitDiscipline(c, "R8")
 }
 
